@@ -1,1 +1,492 @@
-//! placeholder
+//! C18 — SOCKS4/4a/5 messages are parsed and produced exactly per the RFCs.
+//!
+//! Reference grammar written from RFC 1928 and the SOCKS4/4a memo; message lengths and
+//! the address-type octet are concrete per harness, every other octet is symbolic.
+//! IP-literal *formatting* (`Ipv4Addr::to_string`) is std code driven through `fmt`; where an
+//! address is rendered as text the address octets are fixed constants (stated bound).
+use crate::util::poll_once;
+use bytes::Bytes;
+use core::net::{IpAddr, Ipv4Addr, Ipv6Addr, SocketAddr, SocketAddrV4, SocketAddrV6};
+use core::task::Poll;
+use penguin_socks::{v4, v5, Error};
+use core::pin::Pin;
+use core::task::Context;
+use tokio::io::{AsyncBufRead, AsyncRead, AsyncWrite, ReadBuf};
+
+/// In-memory duplex over fixed arrays (always ready, EOF at the end of `b`).  Stack arrays
+/// keep constant octets (version, address type) constant for the symbolic execution.
+pub struct Mem<const N: usize> {
+    b: [u8; N],
+    pos: usize,
+    out: [u8; 32],
+    out_len: usize,
+}
+impl<const N: usize> Mem<N> {
+    fn new(b: [u8; N]) -> Self {
+        Self { b, pos: 0, out: [0; 32], out_len: 0 }
+    }
+    fn position(&self) -> usize {
+        self.pos
+    }
+    fn written(&self) -> &[u8] {
+        &self.out[..self.out_len]
+    }
+}
+impl<const N: usize> AsyncRead for Mem<N> {
+    fn poll_read(self: Pin<&mut Self>, _cx: &mut Context<'_>, buf: &mut ReadBuf<'_>) -> Poll<std::io::Result<()>> {
+        let me = self.get_mut();
+        let n = core::cmp::min(N - me.pos, buf.remaining());
+        buf.put_slice(&me.b[me.pos..me.pos + n]);
+        me.pos += n;
+        Poll::Ready(Ok(()))
+    }
+}
+impl<const N: usize> AsyncBufRead for Mem<N> {
+    fn poll_fill_buf(self: Pin<&mut Self>, _cx: &mut Context<'_>) -> Poll<std::io::Result<&[u8]>> {
+        let me = self.get_mut();
+        Poll::Ready(Ok(&me.b[me.pos..]))
+    }
+    fn consume(self: Pin<&mut Self>, amt: usize) {
+        let me = self.get_mut();
+        me.pos = core::cmp::min(N, me.pos + amt);
+    }
+}
+impl<const N: usize> AsyncWrite for Mem<N> {
+    fn poll_write(self: Pin<&mut Self>, _cx: &mut Context<'_>, buf: &[u8]) -> Poll<std::io::Result<usize>> {
+        let me = self.get_mut();
+        let end = me.out_len + buf.len();
+        me.out[me.out_len..end].copy_from_slice(buf);
+        me.out_len = end;
+        Poll::Ready(Ok(buf.len()))
+    }
+    fn poll_flush(self: Pin<&mut Self>, _cx: &mut Context<'_>) -> Poll<std::io::Result<()>> {
+        Poll::Ready(Ok(()))
+    }
+    fn poll_shutdown(self: Pin<&mut Self>, _cx: &mut Context<'_>) -> Poll<std::io::Result<()>> {
+        Poll::Ready(Ok(()))
+    }
+}
+
+fn eq_bytes(a: &[u8], b: &[u8]) -> bool {
+    if a.len() != b.len() {
+        return false;
+    }
+    let mut i = 0;
+    while i < a.len() {
+        if a[i] != b[i] {
+            return false;
+        }
+        i += 1;
+    }
+    true
+}
+
+macro_rules! h {
+    ($name:ident, $unwind:literal, $body:expr) => {
+        #[kani::proof]
+        #[kani::unwind($unwind)]
+        fn $name() {
+            $body
+        }
+    };
+}
+
+// ---------------------------------------------------------------------------------------
+// UDP relay header: RSV(2) FRAG(1) ATYP(1) DST.ADDR DST.PORT(2) DATA
+// ---------------------------------------------------------------------------------------
+/// Domain-name and invalid headers: `atyp` constant, everything else symbolic.
+fn udp_parse_domain<const N: usize>(atyp: u8) {
+    let mut b: [u8; N] = kani::any();
+    if N > 3 {
+        b[3] = atyp;
+    }
+    let r = v5::parse_udp_relay_header(Bytes::copy_from_slice(&b));
+    // reference
+    let mut ok = false;
+    let mut dlen = 0usize;
+    if N >= 4 && b[2] == 0 && atyp == 3 && N >= 5 {
+        dlen = b[4] as usize;
+        ok = N >= 5 + dlen + 2;
+    }
+    match &r {
+        Ok((dst, port, data)) => {
+            assert!(ok, "P:C18 UDP relay header accepted although it is malformed/truncated per RFC 1928");
+            assert!(eq_bytes(dst, &b[5..5 + dlen]), "P:C18 UDP relay header: wrong DST.ADDR");
+            let p = ((b[5 + dlen] as u16) << 8) | b[5 + dlen + 1] as u16;
+            assert!(*port == p, "P:C18 UDP relay header: wrong DST.PORT");
+            assert!(eq_bytes(data, &b[5 + dlen + 2..]), "P:C18 UDP relay header: wrong payload");
+            kani::cover!(true, "?well-formed header parsed");
+        }
+        Err(e) => {
+            assert!(!ok, "P:C18 well-formed UDP relay header rejected");
+            if N >= 4 && b[2] != 0 {
+                assert!(matches!(e, Error::FragmentedUdp), "P:C18 fragmented UDP datagram not reported as such");
+            }
+            kani::cover!(true, "?malformed header rejected");
+        }
+    }
+    kani::cover!(true, "parser evaluated");
+    core::mem::forget(r);
+}
+/// IPv4 / IPv6 headers: address octets are constants (rendered as text), the rest symbolic.
+fn udp_parse_ip<const N: usize>(v6: bool) {
+    let mut b: [u8; N] = kani::any();
+    let alen = if v6 { 16 } else { 4 };
+    if N > 3 {
+        b[3] = if v6 { 4 } else { 1 };
+    }
+    // fixed address 127.0.0.1 / ::1 (as many octets as fit)
+    let mut i = 0;
+    while i < alen && 4 + i < N {
+        b[4 + i] = if v6 { if i == 15 { 1 } else { 0 } } else { [127, 0, 0, 1][i] };
+        i += 1;
+    }
+    let r = v5::parse_udp_relay_header(Bytes::copy_from_slice(&b));
+    let ok = N >= 4 + alen + 2 && b[2] == 0;
+    match &r {
+        Ok((dst, port, data)) => {
+            assert!(ok, "P:C18 UDP relay header accepted although it is malformed/truncated per RFC 1928");
+            let want: &[u8] = if v6 { b"::1" } else { b"127.0.0.1" };
+            assert!(eq_bytes(dst, want), "P:C18 UDP relay header: wrong DST.ADDR text");
+            let p = ((b[4 + alen] as u16) << 8) | b[4 + alen + 1] as u16;
+            assert!(*port == p, "P:C18 UDP relay header: wrong DST.PORT");
+            assert!(eq_bytes(data, &b[4 + alen + 2..]), "P:C18 UDP relay header: wrong payload");
+            kani::cover!(true, "?well-formed header parsed");
+        }
+        Err(_) => {
+            assert!(!ok, "P:C18 well-formed UDP relay header rejected");
+            kani::cover!(true, "?malformed header rejected");
+        }
+    }
+    kani::cover!(true, "parser evaluated");
+    core::mem::forget(r);
+}
+
+/// A conforming client strips RSV RSV FRAG ATYP ADDR PORT and recovers address, port, payload.
+fn udp_build<const P: usize>(v6: bool) {
+    let data: [u8; P] = kani::any();
+    let port: u16 = kani::any();
+    let a4: [u8; 4] = kani::any();
+    let a6: [u8; 16] = kani::any();
+    let target = if v6 {
+        SocketAddr::V6(SocketAddrV6::new(Ipv6Addr::from(a6), port, 0, 0))
+    } else {
+        SocketAddr::V4(SocketAddrV4::new(Ipv4Addr::from(a4), port))
+    };
+    let out = v5::udp_relay_response(target, &data);
+    let alen = if v6 { 16 } else { 4 };
+    assert!(out.len() == 4 + alen + 2 + P, "P:C18 UDP relay reply has the wrong length");
+    assert!(out[0] == 0 && out[1] == 0, "P:C18 UDP relay reply: RSV not zero");
+    assert!(out[2] == 0, "P:C18 UDP relay reply: FRAG not zero");
+    assert!(out[3] == if v6 { 4 } else { 1 }, "P:C18 UDP relay reply: ATYP is not the octet before the address");
+    let mut i = 0;
+    while i < alen {
+        assert!(out[4 + i] == if v6 { a6[i] } else { a4[i % 4] }, "P:C18 UDP relay reply: address octets wrong");
+        i += 1;
+    }
+    assert!(out[4 + alen] == (port >> 8) as u8 && out[5 + alen] == port as u8, "P:C18 UDP relay reply: port wrong");
+    assert!(eq_bytes(&out[6 + alen..], &data), "P:C18 UDP relay reply: payload wrong");
+    kani::cover!(true, "reply built");
+    core::mem::forget(out);
+}
+
+h!(c18_udp_parse_dom_n0, 20, udp_parse_domain::<0>(3));
+h!(c18_udp_parse_dom_n3, 20, udp_parse_domain::<3>(3));
+h!(c18_udp_parse_dom_n4, 20, udp_parse_domain::<4>(3));
+h!(c18_udp_parse_dom_n5, 20, udp_parse_domain::<5>(3));
+h!(c18_udp_parse_dom_n7, 20, udp_parse_domain::<7>(3));
+h!(c18_udp_parse_dom_n8, 20, udp_parse_domain::<8>(3));
+h!(c18_udp_parse_dom_n10, 20, udp_parse_domain::<10>(3));
+h!(c18_udp_parse_badatyp_n10, 20, udp_parse_domain::<10>(2));
+h!(c18_udp_parse_badatyp0_n10, 20, udp_parse_domain::<10>(0));
+h!(c18_udp_parse_v4_n9, 24, udp_parse_ip::<9>(false));
+h!(c18_udp_parse_v4_n10, 24, udp_parse_ip::<10>(false));
+h!(c18_udp_parse_v4_n12, 24, udp_parse_ip::<12>(false));
+h!(c18_udp_parse_v6_n21, 30, udp_parse_ip::<21>(true));
+h!(c18_udp_parse_v6_n22, 30, udp_parse_ip::<22>(true));
+h!(c18_udp_parse_v6_n23, 30, udp_parse_ip::<23>(true));
+h!(c18_udp_build_v4_p0, 24, udp_build::<0>(false));
+h!(c18_udp_build_v4_p3, 24, udp_build::<3>(false));
+h!(c18_udp_build_v6_p0, 24, udp_build::<0>(true));
+h!(c18_udp_build_v6_p2, 24, udp_build::<2>(true));
+
+// ---------------------------------------------------------------------------------------
+// SOCKS5 request: VER CMD RSV ATYP DST.ADDR DST.PORT ; method negotiation: NMETHODS METHODS
+// ---------------------------------------------------------------------------------------
+/// `N` octets available; `atyp` and (for IP types) the address are constants.
+fn v5_request<const N: usize>(atyp: u8, dlen: u8) {
+    let mut b: [u8; N] = kani::any();
+    let ver_ok: bool = kani::any();
+    if N > 0 && ver_ok {
+        b[0] = 5;
+    }
+    if N > 3 {
+        b[3] = atyp;
+    }
+    let alen: usize = match atyp {
+        1 => 4,
+        4 => 16,
+        3 => {
+            if N > 4 {
+                b[4] = dlen;
+            }
+            1 + dlen as usize
+        }
+        _ => 0,
+    };
+    if atyp == 1 || atyp == 4 {
+        let mut i = 0;
+        while i < alen && 4 + i < N {
+            b[4 + i] = if atyp == 4 { if i == 15 { 1 } else { 0 } } else { [10, 0, 0, 200][i] };
+            i += 1;
+        }
+    }
+    let need = 4 + alen + 2;
+    let mut cur = Mem::new(b);
+    let r = {
+        let fut = v5::read_request(&mut cur);
+        let mut fut = core::pin::pin!(fut);
+        match poll_once(fut.as_mut()) {
+            Poll::Ready(r) => r,
+            Poll::Pending => panic!("P:C18 SOCKS5 reader pending on an in-memory stream"),
+        }
+    };
+    let good_ver = N > 0 && b[0] == 5;
+    let known = atyp == 1 || atyp == 3 || atyp == 4;
+    match &r {
+        Ok((cmd, addr, port)) => {
+            assert!(good_ver && known && N >= need, "P:C18 SOCKS5 request accepted although truncated/malformed");
+            assert!(*cmd == b[1], "P:C18 SOCKS5 request: wrong CMD");
+            let want: &[u8] = match atyp {
+                1 => b"10.0.0.200",
+                4 => b"::1",
+                _ => &b[5..5 + dlen as usize],
+            };
+            assert!(eq_bytes(addr, want), "P:C18 SOCKS5 request: wrong DST.ADDR");
+            let p = ((b[4 + alen] as u16) << 8) | b[5 + alen] as u16;
+            assert!(*port == p, "P:C18 SOCKS5 request: wrong DST.PORT");
+            assert!(cur.position() == need, "P:C18 SOCKS5 request: consumed more or fewer octets than the request has");
+            kani::cover!(true, "?request parsed");
+        }
+        Err(e) => {
+            assert!(!(good_ver && known && N >= need), "P:C18 well-formed SOCKS5 request rejected");
+            if N > 0 && b[0] != 5 {
+                assert!(matches!(e, Error::SocksVersion(_)), "P:C18 wrong SOCKS version not reported as such");
+            }
+            kani::cover!(true, "?request rejected");
+        }
+    }
+    kani::cover!(true, "reader evaluated");
+    core::mem::forget(r);
+    core::mem::forget(cur);
+}
+h!(c18_v5req_v4_n0, 24, v5_request::<0>(1, 0));
+h!(c18_v5req_v4_n1, 24, v5_request::<1>(1, 0));
+h!(c18_v5req_v4_n3, 24, v5_request::<3>(1, 0));
+h!(c18_v5req_v4_n4, 24, v5_request::<4>(1, 0));
+h!(c18_v5req_v4_n7, 24, v5_request::<7>(1, 0));
+h!(c18_v5req_v4_n9, 24, v5_request::<9>(1, 0));
+h!(c18_v5req_v4_n10, 24, v5_request::<10>(1, 0));
+h!(c18_v5req_v4_n12, 24, v5_request::<12>(1, 0));
+h!(c18_v5req_v6_n21, 30, v5_request::<21>(4, 0));
+h!(c18_v5req_v6_n22, 30, v5_request::<22>(4, 0));
+h!(c18_v5req_dom0_n6, 24, v5_request::<6>(3, 0));
+h!(c18_v5req_dom0_n7, 24, v5_request::<7>(3, 0));
+h!(c18_v5req_dom2_n8, 24, v5_request::<8>(3, 2));
+h!(c18_v5req_dom2_n9, 24, v5_request::<9>(3, 2));
+h!(c18_v5req_dom2_n10, 24, v5_request::<10>(3, 2));
+h!(c18_v5req_dom1_n4, 24, v5_request::<4>(3, 1));
+h!(c18_v5req_dom1_n5, 24, v5_request::<5>(3, 1));
+h!(c18_v5req_badatyp_n10, 24, v5_request::<10>(2, 0));
+h!(c18_v5req_badatyp5_n10, 24, v5_request::<10>(5, 0));
+
+fn v5_methods<const N: usize>(nm: u8) {
+    let mut b: [u8; N] = kani::any();
+    if N > 0 {
+        b[0] = nm;
+    }
+    let mut cur = Mem::new(b);
+    let r = {
+        let fut = v5::read_auth_methods(&mut cur);
+        let mut fut = core::pin::pin!(fut);
+        match poll_once(fut.as_mut()) {
+            Poll::Ready(r) => r,
+            Poll::Pending => panic!("P:C18 method reader pending on an in-memory stream"),
+        }
+    };
+    let need = 1 + nm as usize;
+    match &r {
+        Ok(m) => {
+            assert!(N >= need, "P:C18 truncated method list accepted");
+            assert!(eq_bytes(m, &b[1..need]), "P:C18 wrong method list");
+            assert!(cur.position() == need, "P:C18 method list: consumed the wrong number of octets");
+            kani::cover!(true, "?methods parsed");
+        }
+        Err(_) => {
+            assert!(N < need, "P:C18 well-formed method list rejected");
+            kani::cover!(true, "?methods rejected");
+        }
+    }
+    kani::cover!(true, "reader evaluated");
+    core::mem::forget(r);
+    core::mem::forget(cur);
+}
+h!(c18_v5methods_n0, 12, v5_methods::<0>(0));
+h!(c18_v5methods_nm0_n1, 12, v5_methods::<1>(0));
+h!(c18_v5methods_nm2_n2, 12, v5_methods::<2>(2));
+h!(c18_v5methods_nm2_n3, 12, v5_methods::<3>(2));
+h!(c18_v5methods_nm2_n5, 12, v5_methods::<5>(2));
+
+// ---------------------------------------------------------------------------------------
+// SOCKS4 / 4a request after the version octet: CD DSTPORT(2) DSTIP(4) USERID NUL [DOMAIN NUL]
+// ---------------------------------------------------------------------------------------
+/// Shape: `ulen` user-id octets (non-zero) then NUL iff `uterm`; if 4a: `dlen` domain octets
+/// (non-zero) then NUL iff `dterm`.  Everything else symbolic.
+fn v4_request<const N: usize>(is4a: bool, ulen: usize, uterm: bool, dlen: usize, dterm: bool) {
+    let mut b: [u8; N] = kani::any();
+    // DSTIP
+    if N >= 7 {
+        if is4a {
+            b[3] = 0;
+            b[4] = 0;
+            b[5] = 0;
+            kani::assume(b[6] != 0);
+        } else {
+            b[3] = 192;
+            b[4] = 168;
+            b[5] = 1;
+            b[6] = 9;
+        }
+    }
+    let mut pos = 7;
+    let mut i = 0;
+    while i < ulen && pos < N {
+        kani::assume(b[pos] != 0);
+        pos += 1;
+        i += 1;
+    }
+    let mut complete = N >= 7 && i == ulen;
+    if uterm && pos < N {
+        b[pos] = 0;
+        pos += 1;
+    } else {
+        complete = false;
+    }
+    let dstart = pos;
+    if is4a && complete {
+        let mut j = 0;
+        while j < dlen && pos < N {
+            kani::assume(b[pos] != 0);
+            pos += 1;
+            j += 1;
+        }
+        complete = j == dlen;
+        if dterm && pos < N {
+            b[pos] = 0;
+            pos += 1;
+        } else {
+            complete = false;
+        }
+    }
+    // the harness shapes are chosen so that the message ends exactly at N
+    let mut cur = Mem::new(b);
+    let r = {
+        let fut = v4::read_request(&mut cur);
+        let mut fut = core::pin::pin!(fut);
+        match poll_once(fut.as_mut()) {
+            Poll::Ready(r) => r,
+            Poll::Pending => panic!("P:C18 SOCKS4 reader pending on an in-memory stream"),
+        }
+    };
+    match &r {
+        Ok((cmd, host, port)) => {
+            assert!(complete, "P:C18 SOCKS4 request accepted although a field is truncated/unterminated");
+            assert!(*cmd == b[0], "P:C18 SOCKS4 request: wrong CD");
+            let p = ((b[1] as u16) << 8) | b[2] as u16;
+            assert!(*port == p, "P:C18 SOCKS4 request: wrong DSTPORT");
+            if is4a {
+                assert!(eq_bytes(host, &b[dstart..dstart + dlen]), "P:C18 SOCKS4a request: wrong domain");
+            } else {
+                assert!(eq_bytes(host, b"192.168.1.9"), "P:C18 SOCKS4 request: wrong DSTIP text");
+            }
+            assert!(cur.position() == pos, "P:C18 SOCKS4 request: consumed the wrong number of octets");
+            kani::cover!(true, "?request parsed");
+        }
+        Err(_) => {
+            assert!(!complete, "P:C18 well-formed SOCKS4 request rejected");
+            kani::cover!(true, "?request rejected");
+        }
+    }
+    kani::cover!(true, "reader evaluated");
+    core::mem::forget(r);
+    core::mem::forget(cur);
+}
+h!(c18_v4req_ip_u0, 16, v4_request::<8>(false, 0, true, 0, false));
+h!(c18_v4req_ip_u2, 16, v4_request::<10>(false, 2, true, 0, false));
+h!(c18_v4req_ip_u2_unterminated, 16, v4_request::<9>(false, 2, false, 0, false));
+h!(c18_v4req_ip_u0_unterminated, 16, v4_request::<7>(false, 0, false, 0, false));
+h!(c18_v4req_ip_trunc_n5, 16, v4_request::<5>(false, 0, false, 0, false));
+h!(c18_v4req_ip_trunc_n0, 16, v4_request::<0>(false, 0, false, 0, false));
+h!(c18_v4req_4a_u1_d2, 16, v4_request::<12>(true, 1, true, 2, true));
+h!(c18_v4req_4a_u0_d0, 16, v4_request::<9>(true, 0, true, 0, true));
+h!(c18_v4req_4a_u0_d2_unterminated, 16, v4_request::<10>(true, 0, true, 2, false));
+h!(c18_v4req_4a_u0_nodomain, 16, v4_request::<8>(true, 0, true, 0, false));
+
+// ---------------------------------------------------------------------------------------
+// Replies
+// ---------------------------------------------------------------------------------------
+fn run_write<F: core::future::Future<Output = Result<(), Error>>>(f: F) {
+    let mut f = core::pin::pin!(f);
+    match poll_once(f.as_mut()) {
+        Poll::Ready(Ok(())) => {}
+        Poll::Ready(Err(e)) => {
+            core::mem::forget(e);
+            panic!("P:C18 reply writer failed on an in-memory sink")
+        }
+        Poll::Pending => panic!("P:C18 reply writer pending on an in-memory sink"),
+    }
+}
+fn v5_reply(v6: bool) {
+    let code: u8 = kani::any();
+    let port: u16 = kani::any();
+    let a4: [u8; 4] = kani::any();
+    let a6: [u8; 16] = kani::any();
+    let local = if v6 {
+        SocketAddr::V6(SocketAddrV6::new(Ipv6Addr::from(a6), port, 0, 0))
+    } else {
+        SocketAddr::V4(SocketAddrV4::new(Ipv4Addr::from(a4), port))
+    };
+    let mut w = Mem::<0>::new([]);
+    run_write(v5::write_response(&mut w, code, local));
+    let out = w.written();
+    let alen = if v6 { 16 } else { 4 };
+    assert!(out.len() == 4 + alen + 2, "P:C18 SOCKS5 reply has the wrong length");
+    assert!(out[0] == 5 && out[1] == code && out[2] == 0 && out[3] == if v6 { 4 } else { 1 }, "P:C18 SOCKS5 reply header wrong");
+    let mut i = 0;
+    while i < alen {
+        assert!(out[4 + i] == if v6 { a6[i] } else { a4[i % 4] }, "P:C18 SOCKS5 reply: BND.ADDR wrong");
+        i += 1;
+    }
+    assert!(out[4 + alen] == (port >> 8) as u8 && out[5 + alen] == port as u8, "P:C18 SOCKS5 reply: BND.PORT wrong");
+    kani::cover!(true, "reply written");
+    core::mem::forget(w);
+}
+fn small_replies() {
+    let code: u8 = kani::any();
+    let mut w = Mem::<0>::new([]);
+    run_write(v5::write_response_unspecified(&mut w, code));
+    assert!(eq_bytes(w.written(), &[5, code, 0, 1, 0, 0, 0, 0, 0, 0]), "P:C18 SOCKS5 unspecified-address reply wrong");
+    core::mem::forget(w);
+    let mut w = Mem::<0>::new([]);
+    run_write(v5::write_auth_method(&mut w, code));
+    assert!(eq_bytes(w.written(), &[5, code]), "P:C18 SOCKS5 method selection wrong");
+    core::mem::forget(w);
+    let mut w = Mem::<0>::new([]);
+    run_write(v4::write_response(&mut w, code));
+    assert!(eq_bytes(w.written(), &[0, code, 0, 0, 0, 0, 0, 0]), "P:C18 SOCKS4 reply wrong");
+    kani::cover!(true, "reply written");
+    core::mem::forget(w);
+}
+h!(c18_v5reply_v4, 24, v5_reply(false));
+h!(c18_v5reply_v6, 24, v5_reply(true));
+h!(c18_small_replies, 16, small_replies());
